@@ -170,7 +170,14 @@ class C19(E1Prop):
                 return self.script.pop(0)
         if step >= 3 and self.nprobes < maxp and rng.random() < 0.15:
             self.nprobes += 1
-            return {'op': 'probe', 'pick': rng.randrange(10 ** 9), 'dt': 1}
+            probe = {'op': 'probe', 'pick': rng.randrange(10 ** 9), 'dt': 1}
+            if rng.random() < 0.6:
+                # probe while something is pending: the builds have just
+                # turned green and no event was handled since, so that the
+                # evaluation of the parent has something to do
+                self.script = [probe]
+                return {'op': 'ci_green_all', 'dt': 1}
+            return probe
         return self.gen.next(w)
 
     def apply(self, w, op):
